@@ -13,6 +13,10 @@ C04 line-protocol driver.
 * `schedule`  `-` or a string of at most 200 digits: the thread that runs its next lock region.
               After the schedule the lowest-numbered enabled thread runs until nothing is enabled.
 
+  stress <seed> <threads 2…8> <iters 1…5000> <nk 1…4> <a|b>
+      un-forced run with real goroutine scheduling (see harness/internal/c04/stress.go); the answer is
+      the constant `stress-ok`, the verdict is the implementation-side oracle's
+
 Answer: `;`-joined event tokens `<thread>:<event>/<References of every key>` and a final
 `end:ok:<Range listing>` | `end:deadlock`.
 -/
@@ -52,7 +56,19 @@ def parseNk (s : String) : Option Nat :=
   | [c] => (digit? c).bind fun n => if 1 ≤ n ∧ n ≤ 4 then some n else none
   | _ => none
 
+/-- decimal number of at most 9 digits within `[lo, hi]` -/
+def numIn (s : String) (lo hi : Nat) : Bool :=
+  let cs := s.toList
+  !cs.isEmpty && cs.length ≤ 9 && cs.all (fun c => (digit? c).isSome) &&
+    (match s.toNat? with
+     | some n => lo ≤ n && n ≤ hi
+     | none => false)
+
 def handle : List String → String
+  | ["stress", seed, nt, iters, nk, mode] =>
+    -- un-forced run: nothing to compare but the well-formedness of the line
+    if numIn seed 0 999999999 && numIn nt 2 8 && numIn iters 1 5000 && numIn nk 1 4 && (mode == "a" || mode == "b")
+    then "stress-ok" else "bad-op"
   | ["sched", nk, progs, sched] =>
     match parseNk nk with
     | none => "bad-op"
